@@ -1,23 +1,26 @@
 import HexVerif.Lemmas.XcmpV2
 import HexVerif.Lemmas.XcmpC08
+import HexVerif.Lemmas.IsaAccess
 /-!
-  C08 for the class V2: what the run constructed by `v2_correct` does to the memory.
+  C08 for the classes V2 / V3: what the run constructed by `v_correct` does to the memory, and
+  which words it touches.
 -/
 namespace Hex.C01s
 open Hex Hex.X Hex.Xcmp Hex.IAm Hex.Asm
 
-theorem v2_c08 (P : X.Program) (st : Stages) (img : Image) (inp : X.Input) (fuel : Nat) (β : X.Behaviour)
-    (hasm : assembleDirs st.optimised = .ok img) (hchk : v2Check P st img = true)
+theorem v_c08 (pk : Bool) (P : X.Program) (st : Stages) (img : Image) (inp : X.Input) (fuel : Nat) (β : X.Behaviour)
+    (hasm : assembleDirs st.optimised = .ok img) (hchk : vCheck pk P st img = true)
     (hrun : X.run P inp fuel = .defined β) :
     ∃ n code j s' io, Isa.run n (Am.boot img) (Isa.IOSt.init inp.stdin inp.files) = .exited code j s' io ∧
       code = β.exit ∧ io.log.reverse = β.events ∧
+      Isa.AllIn (Isa.runAccesses n (Am.boot img) (Isa.IOSt.init inp.stdin inp.files)) ∧
       (∀ w, s'.mem.read w ≠ (Am.boot img).mem.read w → w < memWords ∧ (envOf st.optimised img).isCode w = false) ∧
       (β.returned = true → ∃ a' b' mem',
         Steps (v1Env st img) (cfg 0 0 0 (Am.boot img).mem) (Isa.IOSt.init inp.stdin inp.files)
           (cfg (2 + st.cg.data.length + 3) a' b' mem') io ∧
         mem'.read 1 = BitVec.ofNat 32 (spValue st.cg.globalsOffset).toNat) := by
   obtain ⟨G, pm, ok, hGenv, hGxc, g, hp, hgv, hpm, hname, cmain, hpmm, hhead, hstub, hg0, hm1', hGspv⟩ :=
-    v2_setup P st img inp fuel hasm hchk
+    v_setup pk P st img inp fuel hasm hchk
   obtain ⟨m, hfind, hcases⟩ := run_v2 P inp fuel β hgv hrun
   have hcore := v2_core G ok fuel (Am.boot img).mem (v2St0 P inp) rfl pm hpm hname cmain
     (spValue st.cg.globalsOffset) (2 + st.cg.data.length) hhead hstub hg0 hm1'
@@ -35,7 +38,7 @@ theorem v2_c08 (P : X.Program) (st : Stages) (img : Image) (inp : X.Input) (fuel
     rw [hGenv] at hsteps hexit hs1
     obtain ⟨c', hsteps', hexit'⟩ := peep_run (env' := envOf st.optimised img) hp hnd' _ _ c s.io 0 hsteps hexit
     obtain ⟨n, j, s', hr, hmem⟩ := IAm_refines_Isa_mem g _ c' s.io 0 (by rw [hboot]; exact hsteps') hexit'
-    refine ⟨n, 0, j, s', s.io, hr, e1.symm, e2.symm, ?_, fun _ => ⟨a', b', mem', hs1, by rw [hsp, hGspv]⟩⟩
+    refine ⟨n, 0, j, s', s.io, hr, e1.symm, e2.symm, Isa.run_exited_inrange _ _ _ _ _ _ _ _ hr, ?_, fun _ => ⟨a', b', mem', hs1, by rw [hsp, hGspv]⟩⟩
     intro w hw
     rw [hmem] at hw
     exact steps_changed _ _ _ _ _ hsteps' w hw
@@ -44,7 +47,7 @@ theorem v2_c08 (P : X.Program) (st : Stages) (img : Image) (inp : X.Input) (fuel
     rw [hGenv] at hsteps hexit
     obtain ⟨c', hsteps', hexit'⟩ := peep_run (env' := envOf st.optimised img) hp hnd' _ _ c s.io code hsteps hexit
     obtain ⟨n, j, s', hr, hmem⟩ := IAm_refines_Isa_mem g _ c' s.io code (by rw [hboot]; exact hsteps') hexit'
-    refine ⟨n, code, j, s', s.io, hr, e1.symm, e2.symm, ?_, fun h => by rw [e4] at h; simp at h⟩
+    refine ⟨n, code, j, s', s.io, hr, e1.symm, e2.symm, Isa.run_exited_inrange _ _ _ _ _ _ _ _ hr, ?_, fun h => by rw [e4] at h; simp at h⟩
     intro w hw
     rw [hmem] at hw
     exact steps_changed _ _ _ _ _ hsteps' w hw
